@@ -23,3 +23,38 @@ claim("C01", category="model_checking", engine="arraymc",
            "hard-link identity, empty dirs), fix and a following check must report no error, and the C06 parity oracle must hold.",
       note="trusted: lab ground truth and libvp; <=4 data disks, 1-2 KiB blocks; corruption shapes only with hash size>=8; the decoder algebra for up to 251 disks is C02/C03's subject",
       design="3 C01")
+
+claim("C04", category="fault_enumeration", engine="arraymc",
+      technique="exhaustive enumeration of every data block and every used parity block x corruption shapes x verifying commands on the real CLI",
+      text="For 3 (quick) / 6 (thorough) configurations (1,2,3z levels; +6, 3 with 4 disks and 2 KiB blocks, position hole; reduced hash size, "
+           "hash migration in progress, split parity) every block of every file is damaged with each of 4 shapes and every used parity block of "
+           "every level with 2 shapes, size and time-stamp preserved; thorough adds every pair in different stripes. Each case is given to check -a, "
+           "check, scrub -p full / new / 100 (clock advanced) / 50 -o 0 / bad (after a marking scrub) and the set of error:/parity_error: tags must "
+           "equal the damaged (stripe, disk|level) set the command covers, the exit status must fail, and status -G must list exactly those stripes "
+           "as bad after a scrub; the undamaged array must stay silent under every command.",
+      note="same-stripe data+parity damage is not combined (scrub by design skips the parity compare once a data block failed); hash sizes 8/16 only",
+      design="3 C04")
+
+claim("C05", category="model_checking", engine="arraymc",
+      technique="explicit-state BFS over sync histories (complete, partial, killed, stripe-skipping) then exhaustive damage x filter enumeration with an independent version oracle",
+      text="Phase 1 reaches every state within depth 2 (quick) / 3 (thorough) of adds, deletes, same/other-length rewrites, moves and sync flavours "
+           "(complete, -B/-S partial, killed after the parity update, forced autosave + kill, stripes skipped because a file was touched or removed "
+           "during the sync, pre-hash, scrub); every distinct state is a target. Phase 2 applies every subset of devices lost (also more than N), "
+           "per-file remove / truncate / flip of a hashed block, parity stale or garbage, each under 6 filter combinations of -f/-d/-m/-e. After fix "
+           "every recorded file must either carry the bytes of its recorded version (version store narrowed by the recorded hashes of synced "
+           "blocks) or be reported unrecoverable with failing exit and summary; nothing unselected or unknown to the content file may be written, and "
+           "content files stay untouched.",
+      note="damage restricted to the statement's detectable class; a never-synced file the user changed again after it was recorded is outside that class and not judged",
+      design="3 C05")
+
+claim("C11", category="model_checking", engine="arraymc",
+      technique="exhaustive enumeration of all operation sequences up to a depth on the real CLI, ground truth from the file system and an independent content decoder",
+      text="Every sequence of <=2 (quick) / <=3 (thorough) operations over a 24-operation alphabet (create, overwrite, same-length rewrite, nsec-only "
+           "and sec-only rewrites, append, truncate, delete, rename, move to dir / disk, copy, file<->dir, file<->symlink, retarget, add/remove "
+           "hardlink, mtime-only, swap, delete+create, empty dirs) on colliding names of a synced 2-disk array, followed by a second round in "
+           "thorough; additionally all sequences of length <=1 (quick) / <=2 (thorough) in fake-UUID persistent-inode mode, inode / dir / physical "
+           "scan order and with parallel scanning. Before sync diff must exit 2 exactly when the recorded files/links differ from the tree; after a "
+           "sync that exits 0: diff 0 with zero counters, list -l and the decoded content equal the tree walk (files, links, empty dirs), every "
+           "block is synced with the independent hash of the current bytes, check passes and the C06 oracle holds.",
+      note="inode reuse cannot be forced on tmpfs; in order-sensitive modes the base state is rebuilt per sequence instead of restored",
+      design="3 C11")
